@@ -55,7 +55,7 @@ type qDoc struct {
 type qGen struct {
 	r       *rand.Rand
 	a       *advSchema
-	hints   map[string]bool // paginated "Type.field"
+	hints   map[string]bool // harness hints: "Type.field" = paginated, "expensive:Type.field" = Expensive field func
 	doc     *qDoc
 	nAlias  int
 	byType  map[string][]*qNamed
@@ -153,6 +153,31 @@ func (g *qGen) selSet(typeName string, depth int, sc *scope, fragBudget int, isR
 				g.feats["args"] = true
 			}
 			set.Fields = append(set.Fields, f)
+		}
+		// the same composite field twice under two aliases, with equal arguments
+		// and different sub-selections (more often for Expensive fields, whose
+		// executed sub-tree is cached per selection inside a reactive.Rerunner)
+		for _, f := range append([]*qField(nil), set.Fields...) {
+			if f.Sub == nil || f.Type == nil {
+				continue
+			}
+			exp := g.hints["expensive:"+typeName+"."+f.Name]
+			if (exp && r.Intn(2) != 0) || (!exp && r.Intn(8) != 0) {
+				continue
+			}
+			dup := &qField{Name: f.Name, Args: f.Args, Type: f.Type, Alias: g.alias()}
+			sc.names[dup.key()] = dup.Name + dup.Args
+			sub, err := g.selSet(*f.Type.named().Name, depth-1, newScope(), 2, false, false)
+			if err != nil {
+				return nil, err
+			}
+			dup.Sub = sub
+			set.Fields = append(set.Fields, dup)
+			g.feats["same_field_two_aliases"] = true
+			if exp {
+				g.feats["expensive_field_two_aliases"] = true
+			}
+			break
 		}
 		pt := 7
 		if isRoot || typeName == g.a.Query || typeName == g.a.Mutation {
